@@ -597,9 +597,13 @@ func (c *Ctx) rulesC07(a *coreAnchors) {
 	c.rule("C07.enq", "PrependMut enqueues unconditionally: every return that is not preceded by the queue write is dominated by disposing == true")
 	if pmf := a.prependMut; pmf != nil {
 		var w ssa.Instruction
-		for _, fw := range writesOfFieldIn(pmf, a.fQueue) {
-			w = fw.Instr
-			break
+		for _, hf := range c.hostedFns(pmf) {
+			for _, fw := range writesOfFieldIn(hf, a.fQueue) {
+				if w == nil {
+					// the write, or the call in PrependMut that stands for it
+					w = c.standIn(pmf, fw.Instr)
+				}
+			}
 		}
 		if w == nil {
 			c.undecided("C07.enq: PrependMut does not write Machine.queue")
@@ -1378,19 +1382,41 @@ func (c *Ctx) rulesC14chk(a *coreAnchors) {
 		if w.Kind != "assign" {
 			continue
 		}
-		pred := w.Val
-		for _, b := range nt.Blocks {
-			for _, ins := range b.Instrs {
-				st, ok := ins.(*ssa.Store)
-				if !ok {
-					continue
+		// the predicted slice, in newTransition or as the result of a private
+		// helper it was moved into
+		type predIn struct {
+			f *ssa.Function
+			v ssa.Value
+		}
+		preds := []predIn{{nt, w.Val}}
+		if call, ok := w.Val.(*ssa.Call); ok {
+			if callee := call.Call.StaticCallee(); callee != nil && len(callee.Blocks) > 0 && c.hostedBy(callee, nt) {
+				for _, r := range returnsOf(callee) {
+					for _, rv := range retVals(r) {
+						if _, isSl := rv.Type().Underlying().(*types.Slice); isSl {
+							preds = append(preds, predIn{callee, rv})
+						}
+					}
 				}
-				ia, ok := st.Addr.(*ssa.IndexAddr)
-				if !ok || !(ia.X == pred || sameSliceVar(ia.X, pred) || sameSliceVar(pred, ia.X)) {
-					continue
+			}
+		}
+		seenSt := map[ssa.Instruction]bool{}
+		for _, pi := range preds {
+			pred := pi.v
+			for _, b := range pi.f.Blocks {
+				for _, ins := range b.Instrs {
+					st, ok := ins.(*ssa.Store)
+					if !ok || seenSt[ins] {
+						continue
+					}
+					ia, ok := st.Addr.(*ssa.IndexAddr)
+					if !ok || !(ia.X == pred || sameSliceVar(ia.X, pred) || sameSliceVar(pred, ia.X)) {
+						continue
+					}
+					seenSt[ins] = true
+					n++
+					c.requireGuardsHosted("C14.chk", fmt.Sprintf("newTransition: predicted tick write%s", nth(n-1)), ins, nt, gFieldTruth("!mut.IsCheck", fChk, false))
 				}
-				n++
-				c.requireGuards("C14.chk", fmt.Sprintf("newTransition: predicted tick write%s", nth(n-1)), ins, gFieldTruth("!mut.IsCheck", fChk, false))
 			}
 		}
 	}
